@@ -49,9 +49,9 @@ TQFathers ==
   /\ \A i \in DOMAIN Ev.rows :
        LET x == Ev.rows[i]  n == x[1] IN
          /\ n \in nodes
-         /\ SeqToSet(x[2]) = Fathers(edges, n) /\ x[3] = Cardinality(InE(edges, TRUE, n))
+         /\ SeqToSet(x[2]) = Fathers(edges, n) /\ x[3] = Cardinality(Fathers(edges, n))
          /\ x[4] = HasFather(edges, n)
-         /\ SeqToSet(x[5]) = Sons(edges, n) /\ x[6] = Cardinality(OutE(edges, TRUE, n))
+         /\ SeqToSet(x[5]) = Sons(edges, n) /\ x[6] = Cardinality(Sons(edges, n))
 \* leaves under a node: asserted on acyclic graphs (the walk need not end otherwise)
 TQLeaves ==
   /\ IsEvent("QLeaves") /\ acyclic /\ QStruct /\ ProjOK
